@@ -5,4 +5,6 @@ VERIF_DIR="$(pwd)"; export VERIF_DIR
 CARGO_NET_OFFLINE=true; export CARGO_NET_OFFLINE
 mkdir -p target replays evidence
 (cd sim && cargo build --release --offline) || { echo "HARNESS-ERROR: build failed" >&2; exit 2; }
+# known-answer tests of the reference codec (CRC-32, HMAC, RFC 5769 short- and long-term vectors, exposure rule)
+(cd sim && cargo test --release --offline -q) || { echo "HARNESS-ERROR: reference codec self-tests failed" >&2; exit 2; }
 ./target/release/stunsim selftest determinism --fast || exit 2
